@@ -77,6 +77,26 @@ fn main() {
         }
     }
     c.add_sweep("config-values: absurd configuration spaces per driver, each in an isolated child", ev, ev, true, J::obj());
+    // Part D: window geometry reported by a PCI device (capability lengths that are not a
+    // multiple of the access width): no MMIO access may leave the windows the device declared.
+    {
+        let bars: Vec<(usize, vlab::pci_model::BarKind, u64)> = vec![(vlab::c11::GOOD_BAR as usize, vlab::pci_model::BarKind::Mem64 { size: vlab::c11::GOOD_BAR_SIZE, prefetch: true }, vlab::c11::GOOD_BAR_ADDR)];
+        let mut ev = 0u64;
+        let mut cases = 0u64;
+        for nl in [2u32, 3, 5, 7] {
+            for dl in [4u32, 5, 7, 10, 11, 17] {
+                let (n, v) = vlab::c11::run_odd_windows(&bars, nl, 2, dl);
+                ev += n;
+                cases += 1;
+                for (k, d) in v {
+                    if k == "access-outside-windows" || k == "config-access-beyond-window" {
+                        c.add_violation(Violation::new("C07", format!("pci-window:{}", k), format!("PCI device declaring a notify window of {} bytes and a device configuration window of {} bytes: {}", nl, dl, d)), "pci-window-geometry", J::obj().set("kind", J::s("case")).set("case", J::s(d)), vec![]);
+                    }
+                }
+            }
+        }
+        c.add_sweep("pci-window-geometry: notifications and configuration accesses of width 1/2/4 up to 8 bytes past windows whose declared length is not a multiple of the access width", ev, cases, true, J::obj());
+    }
     vlab::tracer::install_handlers();
     vlab::crash::install();
     for (name, p) in parts(args.tier) {
